@@ -4,6 +4,7 @@ import OutrankModel.Drv.C15
 import OutrankModel.Drv.MI
 import OutrankModel.Drv.C14
 import OutrankModel.Drv.C16
+import OutrankModel.Drv.C18
 /-!
 Line-protocol driver (DESIGN §2.2): one request per line on stdin, one reply per line on stdout.
 Adds only parsing and printing around the definitions the theorems are about.  Each property contributes one
@@ -16,7 +17,8 @@ def handlers : List (String × Handler) := [
   ("C15", C15Drv.drv),
   ("MI", MIDrv.drv),
   ("C14", C14Drv.drv),
-  ("C16", C16Drv.drv)
+  ("C16", C16Drv.drv),
+  ("C18", C18Drv.drv)
 ]
 
 abbrev DState := List (String × Val)
